@@ -13,6 +13,23 @@ fn shape(rng: &mut Rng, name: &str, n: usize) -> Vec<u32> {
         "organ" => (0..n).map(|i| if i < n / 2 { i as u32 } else { (n - i) as u32 }).collect(),
         "fewkeys" => (0..n).map(|_| rng.below(4) as u32 * 1000).collect(),
         "allequal" => vec![7; n],
+        // a sorted run followed by a scrambled run of larger keys (and the mirror image): the scrambled part is the
+        // shorter side of the first partitions, sorted by a nested call while the long side only needs a check
+        "sortedtail" | "sortedhead" => {
+            let a = n * (55 + rng.below(30) as usize) / 100;
+            let mut v: Vec<u32> = (0..a as u32).collect();
+            let mut tail: Vec<u32> = (a as u32..n as u32).collect();
+            for i in (1..tail.len()).rev() {
+                let j = rng.below(i as u64 + 1) as usize;
+                tail.swap(i, j);
+            }
+            v.extend(tail);
+            if name == "sortedhead" {
+                let m = n as u32;
+                v = v.into_iter().rev().map(|x| m - 1 - x).collect();
+            }
+            v
+        }
         "sawtooth" => (0..n).map(|i| (i % 17) as u32).collect(),
         "mostlysorted" => {
             let mut v: Vec<u32> = (0..n as u32).collect();
@@ -116,18 +133,26 @@ fn main() {
     let maxlen: usize = args.get(4).map(|s| s.parse().unwrap()).unwrap_or(3000);
     let mut out = BufWriter::with_capacity(1 << 22, std::io::stdout());
     let mut rng = Rng::new(seed_from_env().wrapping_mul(6364136223846793005).wrapping_add(shard) ^ 0x5351);
-    let shapes = ["random", "sorted", "reversed", "organ", "fewkeys", "allequal", "sawtooth", "mostlysorted", "killer", "runs"];
+    let shapes = ["random", "sorted", "reversed", "organ", "fewkeys", "allequal", "sawtooth", "mostlysorted", "killer", "runs", "sortedtail", "sortedhead"];
     // the flag is raised by the yield point in front of the k-th load
     let cancel_at = Arc::new(AtomicI64::new(-1));
     let loads = Arc::new(AtomicI64::new(0));
     let flag = Arc::new(AtomicBool::new(false));
+    // ... or by the comparison closure at its k-th call (a cancel arriving at an arbitrary moment of the sort);
+    // `first_seen` = index of the first flag load that found the flag raised (what the model is told)
+    let raise_at_cmp = Arc::new(AtomicI64::new(-1));
+    let cmps = Arc::new(AtomicI64::new(0));
+    let first_seen = Arc::new(AtomicI64::new(-1));
     {
-        let (c, l, f) = (cancel_at.clone(), loads.clone(), flag.clone());
+        let (c, l, f, fs) = (cancel_at.clone(), loads.clone(), flag.clone(), first_seen.clone());
         nucleo::verif::set_callback(Some(Arc::new(move |site, _| {
             if site == "sort.cancel_load" {
                 let k = l.fetch_add(1, Ordering::SeqCst);
                 if k == c.load(Ordering::SeqCst) {
                     f.store(true, Ordering::SeqCst);
+                }
+                if f.load(Ordering::SeqCst) {
+                    let _ = fs.compare_exchange(-1, k, Ordering::SeqCst, Ordering::SeqCst);
                 }
             }
         })));
@@ -196,7 +221,6 @@ fn main() {
             data = pools[0].1.install(|| adversary(n));
             shift = 0;
         }
-        let n = data.len();
         // cancellation: none, at the first load, or at a later load (only sequentially deterministic
         // with one thread, so cancel cases use the 1-thread pool)
         let cancel: i64 = match rng.below(6) {
@@ -204,17 +228,66 @@ fn main() {
             1 => 1 + rng.below(6) as i64,
             _ => -1,
         };
+        // a cancel that arrives at the k-th comparison (one thread, so that it is deterministic)
+        let mut cmp_cancel: i64 = -1;
+        let mut cancel = cancel;
+        if mode == "cmpc" || (mode == "rand" && sh != "adversary" && rng.below(4) == 0) {
+            if mode == "cmpc" {
+                sh = ["sortedtail", "sortedhead", "random", "mostlysorted", "runs"][k % 5];
+                let n = 30 + rng.below(4200) as usize;
+                data = shape(&mut rng, sh, n);
+            }
+            // count the comparisons of an undisturbed sort first
+            let mut v = data.clone();
+            cmps.store(0, Ordering::SeqCst);
+            raise_at_cmp.store(-1, Ordering::SeqCst);
+            cancel_at.store(-1, Ordering::SeqCst);
+            flag.store(false, Ordering::SeqCst);
+            let cc = cmps.clone();
+            pools[0].1.install(|| {
+                nucleo::verif::par_quicksort(
+                    &mut v,
+                    |a: &u32, b: &u32| {
+                        cc.fetch_add(1, Ordering::SeqCst);
+                        (a >> shift) < (b >> shift)
+                    },
+                    &flag,
+                )
+            });
+            let total = cmps.load(Ordering::SeqCst).max(1);
+            cmp_cancel = rng.below(total as u64) as i64;
+            cancel = -1;
+        }
+        let n = data.len();
         let mut reference: Option<(Vec<u32>, bool)> = None;
         for (t, pool) in &pools {
-            if cancel > 0 && *t != 1 {
+            if (cancel > 0 || cmp_cancel >= 0) && *t != 1 {
                 continue;
             }
             let mut v = data.clone();
             cancel_at.store(cancel, Ordering::SeqCst);
+            raise_at_cmp.store(cmp_cancel, Ordering::SeqCst);
+            cmps.store(0, Ordering::SeqCst);
+            first_seen.store(-1, Ordering::SeqCst);
             loads.store(0, Ordering::SeqCst);
             flag.store(false, Ordering::SeqCst);
-            let ret = pool.install(|| nucleo::verif::par_quicksort(&mut v, |a: &u32, b: &u32| (a >> shift) < (b >> shift), &flag));
+            let (cc, ra, fl) = (cmps.clone(), raise_at_cmp.clone(), flag.clone());
+            let ret = pool.install(|| {
+                nucleo::verif::par_quicksort(
+                    &mut v,
+                    |a: &u32, b: &u32| {
+                        if ra.load(Ordering::Relaxed) >= 0 && cc.fetch_add(1, Ordering::SeqCst) == ra.load(Ordering::Relaxed) {
+                            fl.store(true, Ordering::SeqCst);
+                        }
+                        (a >> shift) < (b >> shift)
+                    },
+                    &flag,
+                )
+            });
             let nl = loads.load(Ordering::SeqCst);
+            let raised = flag.load(Ordering::SeqCst);
+            // what the model is told: the first flag load that found the flag raised
+            let cancel = first_seen.load(Ordering::SeqCst);
             // all thread counts must agree with the first (1 thread) result when not cancelled mid-way
             let same = match &reference {
                 None => {
@@ -227,8 +300,8 @@ fn main() {
                 let join = |x: &[u32]| if x.is_empty() { "-".to_string() } else { x.iter().map(|k| k.to_string()).collect::<Vec<_>>().join(".") };
                 writeln!(
                     out,
-                    "Q shift={} threads={} cancel={} n={} shape={} same={} data={} out={} ret={} loads={}",
-                    shift, t, cancel, n, sh, same as u8, join(&data), join(&v), ret as u8, nl
+                    "Q shift={} threads={} cancel={} raised={} cmpcancel={} n={} shape={} same={} data={} out={} ret={} loads={}",
+                    shift, t, cancel, raised as u8, cmp_cancel, n, sh, same as u8, join(&data), join(&v), ret as u8, nl
                 )
                 .unwrap();
             }
